@@ -34,7 +34,7 @@ def make_gen(weights, cfg_fn=None, nmin=8, nmax=40, shape=None, fault_fn=None):
 
     def gen_case(rng, tier):
         cfg = {"universe": rng.choice(sorted(OS.CASCADES)), "autoflush": rng.random() < 0.7, "expire_on_commit": rng.random() < 0.7,
-               "fk_on": True, "readd": rng.random() < 0.4, "sp_outer": rng.random() < 0.5, "expunge_midtxn": rng.random() < 0.5}
+               "fk_on": True, "readd": rng.random() < 0.4, "sp_outer": rng.random() < 0.5, "expunge_midtxn": rng.random() < 0.5, "close_midtxn": rng.random() < 0.4}
         if cfg_fn:
             cfg_fn(rng, cfg)
         # swarm: drop a random subset of op kinds for this history
